@@ -7,6 +7,9 @@ baseline = json.load(open('/root/.vp/BASELINE.json'))['cmd'] if os.path.exists('
 SIM = "deterministic simulation with fault injection (seeded schedules over real olric+memberlist+redcon+go-redis in one synctest bubble)"
 NOTE = "Trusts the simulator seams (simnet, simsync, fake clock) and that the mechanical source rewrite preserves olric's semantics; 1 P per run; sampling."
 claimed = {
+ "C08": dict(level="exploration", design="DESIGN.md §8 C08",
+   text="Seeded search over competing lockers on all entry points with timeouts, deadlines and hold times drawn around each other, leases, stale and forged tokens and minutes-long clock jumps; interval oracle on the simulated clock: mutual exclusion of certain-hold intervals, deadline lower bound, token safety, no early release, acquisition within timeout + retry period + latency.",
+   note=NOTE, technique=SIM + "; interval oracle on the fake clock"),
  "C03": dict(level="exploration", design="DESIGN.md §8 C03",
    text="Seeded search over join/leave/crash sequences with single-writer-per-key traffic running through the hand-over: every read during the hand-over must return the last acknowledged value, and after bounded re-stabilisation every member returns it, a full scan yields exactly the live keys, DM.GETENTRY on every member shows exactly one primary copy and the backup copies a key had before the joins; departures happen only when every asserted key has its backup copies (checked at run time).",
    note=NOTE, technique=SIM + "; membership-change injection + single-writer history oracle + copy census"),
